@@ -254,8 +254,97 @@ def rule_tls_restore(ctx, cfg, F):
             R.violate("%s:message-driver-outside-exchange:%s" % (strip_generics(f.path), strip_generics(callee_name(t)).split("::")[-1]),
                       "%s runs %s in a function that does not exchange the per-thread attachment tables: when this happens inside another message's (de)serialisation, attachment "
                       "indices of this message are resolved against the enclosing message's tables" % (f.path, strip_generics(callee_name(t))), f.path, f.loc(b), config=cfg)
+    _flag_cells(R, cfg, F)
     R.count("exchange_sites[%s]" % cfg, n_sites)
     R.count("user_code_calls[%s]" % cfg, n_user)
+
+
+CELL_WRITE = ("std::cell::Cell::set", "std::cell::Cell::replace", "std::cell::Cell::take")
+CELL_READ = ("std::cell::Cell::get", "std::cell::Cell::replace", "std::cell::Cell::take")
+
+
+def _tls_cell(tr, a):
+    roots = tr.roots_of_operand(a)
+    if len(roots) == 1:
+        r = next(iter(roots))
+        if r.kind == "static" and str(r.id).startswith("tls:") and "Cell<" in str(r.id) and "RefCell<" not in str(r.id):
+            return str(r.id)
+    return None
+
+
+def _flag_cells(R, cfg, F):
+    """per-thread scalar cells (`Cell<bool>`, `Cell<usize>`: "a message is being written", a nesting depth) that a message driver writes
+    around the user's (de)serialisation code and that other (de)serialisation code consults: like the tables, they hold their entry
+    value again at every normal return -- a nested send must not switch the enclosing message's state off"""
+    DRIVERS = ("bincode::serialize_into", "bincode::serialize", "bincode::deserialize", "bincode::deserialize_from", "bincode::serialized_size")
+    readers = {}
+    for g in F.fns.values():
+        trg = None
+        for b, t in g.calls():
+            if strip_generics(callee_name(t)) in CELL_READ and t["args"]:
+                trg = trg or Tracer(g)
+                k = _tls_cell(trg, t["args"][0])
+                if k:
+                    readers.setdefault(k, set()).add(g.path)
+    for f in sorted(F.fns.values(), key=lambda x: x.path):
+        if not (f.path.startswith("ipc::") or f.path.startswith("<ipc::")):
+            continue
+        if not any(strip_generics(callee_name(t)) in DRIVERS or strip_generics(t.get("callee") or "") in DRIVERS for _, t in f.calls()):
+            continue
+        tr = Tracer(f)
+        writes = {}
+        for b, t in f.calls():
+            if strip_generics(callee_name(t)) in CELL_WRITE and t["args"]:
+                k = _tls_cell(tr, t["args"][0])
+                if k and (readers.get(k, set()) - {f.path}):
+                    writes[b] = k
+        if not writes:
+            continue
+        cells = sorted(set(writes.values()))
+        problems = {}
+
+        def step(b, state, env):
+            d = dict(state)
+            t = f.term(b)
+            if t["t"] == "call" and t["args"]:
+                nm = strip_generics(callee_name(t))
+                k = _tls_cell(tr, t["args"][0]) if nm in CELL_WRITE or nm in CELL_READ else None
+                if k in cells:
+                    cur = d.get(("C", k), ("E", k))
+                    if nm in CELL_READ:
+                        d[("R", b)] = cur         # what this read returned, whatever local (or closure capture) carries it on
+                    if nm == "std::cell::Cell::set" or nm == "std::cell::Cell::replace":
+                        rs = tr.roots_of_operand(t["args"][1]) if len(t["args"]) > 1 else set()
+                        vals = {d.get(("R", r.block)) if r.kind == "call" and r.block is not None else None for r in rs}
+                        d[("C", k)] = next(iter(vals)) if len(vals) == 1 and None not in vals else ("O", "bb%d" % b)
+                    elif nm == "std::cell::Cell::take":
+                        d[("C", k)] = ("O", "bb%d" % b)
+            elif t["t"] == "return":
+                for k in cells:
+                    v = d.get(("C", k), ("E", k))
+                    if v != ("E", k):
+                        return ("BAD", k, v)
+            return tuple(sorted(d.items(), key=repr))
+
+        def at_return(b, state, path):
+            if state and state[0] == "BAD":
+                problems.setdefault(state[1], (state[2], path))
+
+        ex = Explorer(f)
+        try:
+            ex.walk(0, (), lambda b, st, env: step(b, st if not (st and st[0] == "BAD") else (), env), at_return=at_return)
+        except RuntimeError as e:
+            R.violate("%s:state-explosion" % f.path, str(e), f.path, f.loc(0), config=cfg)
+            continue
+        for k, (v, path) in sorted(problems.items()):
+            R.violate("%s:per-thread-flag-not-restored:%s" % (strip_generics(f.path), k),
+                      "%s writes the per-thread cell %s around the user's (de)serialisation code and does not put its entry value back at a normal return (it is left at %s); "
+                      "%s consults it, so when this call is nested inside another message's serialisation the enclosing message continues in the wrong state" % (
+                          f.path, k, "a value written at " + v[1] if v[0] == "O" else str(v), ", ".join(sorted(readers[k] - {f.path}))[:200]),
+                      f.path, f.loc(path[-1]), path="bb" + "->bb".join(map(str, path[-14:])), config=cfg)
+        if not problems:
+            R.ok("%s: per-thread cells %s hold their entry value at every normal return" % (f.path, ", ".join(cells)), f.loc(0), cfg)
+        R.count("flag_cells[%s]" % cfg, len(cells))
 
 
 def _kdesc(k):
